@@ -538,7 +538,7 @@ def c01(run):
     groups = collections.defaultdict(list)
     total = 0
     procs = []
-    pool = rule_pool(run, ["any"])
+    pool = rule_pool(run, ["any", "alphaenv"])
     for p in range(K):
         out = os.path.join(BUILD, "c01-p%d.ndjson" % p)
         procs.append((out, subprocess.Popen([HARNESS, "record", "C01", out, str(p), str(nitems)], env=dict(os.environ, VERIF_RULEPOOL=pool, **{k: str(v) for k, v in run.known_env().items()}),
